@@ -5,6 +5,8 @@ Emits data only (DESIGN §2.4), fail-closed (`ExtractError` on any shape it does
 * `recordOnOutcomes`   — the report outcomes under which `update_states_in_database` is called, one entry per call site
                          in `src/_pytask` (`execute.py`: SUCCESS, `persist.py`: PERSISTENCE); a call site anywhere else, or
                          under another guard, changes the list (and so `Engine.reportSteps` and the proofs about it);
+* `rowsSingleTransaction` — `update_states_in_database` writes all rows of a task in ONE session with ONE commit after the
+                         loop (consumed by `Engine.rowSteps`; the per-row shape gives false, anything else fails);
 * `rowsOneCommitEach`  — `_create_or_update_state` upserts one row inside its own `with DatabaseSession()` and commits there,
                          and `update_states_in_database` calls it once per element of `node_and_neighbors`;
 * `neighbourOrder`     — the order in which `node_and_neighbors` yields (predecessors, the node, successors);
@@ -102,6 +104,35 @@ def _rows_one_commit_each():
         return False
 
 
+def _rows_single_transaction():
+    """Consumed by `Engine.rowSteps` (fail-closed): True = `update_states_in_database` opens ONE session, upserts every element
+    of `node_and_neighbors` inside it and commits once after the loop (helper without session/commit of its own);
+    False = the per-row shape (`_rows_one_commit_each`); anything else is an ExtractError."""
+    import extract
+    mod = extract._parse("database_utils.py")
+    up = extract._func(mod, "update_states_in_database")
+    withs = [n for n in _body(up) if isinstance(n, ast.With)]
+    if len(withs) == 1 and len(withs[0].items) == 1 and ast.unparse(withs[0].items[0].context_expr) == "DatabaseSession()":
+        w = withs[0]
+        loops = [n for n in w.body if isinstance(n, ast.For)]
+        commits_in_with = [s for s in w.body if isinstance(s, ast.Expr) and _calls(s, "commit")]
+        if len(loops) != 1 or "node_and_neighbors(session.dag, task_signature)" not in ast.unparse(loops[0].iter):
+            raise _err("update_states_in_database: the session block does not loop over node_and_neighbors(session.dag, task_signature)")
+        if _calls(loops[0], "commit") or len(commits_in_with) != 1 or w.body.index(commits_in_with[0]) < w.body.index(loops[0]):
+            raise _err("update_states_in_database: expected exactly one commit, after the loop, inside the session block")
+        if "node.state()" not in ast.unparse(loops[0]):
+            raise _err("update_states_in_database: the stored hash is not node.state() of the loop's node")
+        helper = extract._func(mod, "_create_or_update_state")
+        if _calls(helper, "commit") or "DatabaseSession()" in ast.unparse(helper):
+            raise _err("_create_or_update_state commits / opens a session although the caller holds the transaction")
+        if len(_calls(loops[0], "_create_or_update_state")) != 1:
+            raise _err("update_states_in_database: expected one upsert per node")
+        return True
+    if not withs and _rows_one_commit_each():
+        return False
+    raise _err("update_states_in_database is neither 'one transaction for all rows' nor 'one commit per row'")
+
+
 def _neighbour_order():
     import extract
     fn = extract._func(extract._parse("dag_utils.py"), "node_and_neighbors")
@@ -157,8 +188,9 @@ def crash_facts() -> list[str]:
     try:
         outcomes = _record_outcomes()
         one_each = _rows_one_commit_each()
+        single = _rows_single_transaction()
         order = _neighbour_order()
-        suppressed, single = _memo_facts()
+        suppressed, memo_single = _memo_facts()
     except extract.ExtractError:
         raise
     except Exception as e:  # noqa: BLE001
@@ -169,10 +201,12 @@ def crash_facts() -> list[str]:
     L.append(f"def recordOnOutcomes : List String := {strs(outcomes)}")
     L.append("/-- one upsert + one commit per `(task, node)` row, one call per element of `node_and_neighbors`. -/")
     L.append(f"def rowsOneCommitEach : Bool := {extract.lean_bool(one_each)}")
+    L.append("/-- all rows of one task are written in ONE transaction (one session, one commit after the loop over `node_and_neighbors`). -/")
+    L.append(f"def rowsSingleTransaction : Bool := {extract.lean_bool(single)}")
     L.append("/-- order in which `node_and_neighbors` yields. -/")
     L.append(f"def neighbourOrder : List String := {strs(order)}")
     L.append("/-- the hash memo file is read inside `suppress(Exception)` / written by a single `write_text`. -/")
     L.append(f"def memoLoadSuppressed : Bool := {extract.lean_bool(suppressed)}")
-    L.append(f"def memoSingleWrite : Bool := {extract.lean_bool(single)}")
+    L.append(f"def memoSingleWrite : Bool := {extract.lean_bool(memo_single)}")
     L.append("")
     return L
